@@ -99,6 +99,8 @@ class Enumerator:
         d = Driver(self.inst, self.template, self.inputs, self.fhs)
         for c in STARTS[start]:
             d.call(c)
+        self.hang_timeout = 6.0
+        self.hangs = 0
         self.pre = absfn.abstract(self.template, self.inst)
         self.others_before = self._others(d)
         from .conc import install_yaml_cache
@@ -193,8 +195,23 @@ class Enumerator:
             if stuck and any(p in stuck for p in ctx.cur_paths):
                 raise OSError(err, os.strerror(err) + " (injected, persistent)")
         ctx.before = before
+        # the call runs in its own thread under a watchdog: a fault that makes the call wait
+        # for a lock it already holds would otherwise hang the enumeration
+        box = {}
+
+        def runner():
+            ctx.owner = threading.get_ident()
+            box["res"] = drv.call(self.call)
         with interpose.active(ctx):
-            res = drv.call(self.call)
+            th = threading.Thread(target=runner, daemon=True)
+            th.start()
+            th.join(self.hang_timeout)
+        hung = th.is_alive()
+        if hung:
+            self.hangs += 1
+            res = {"cls": "blocked", "cid": "-", "data": "-", "truth": True}
+        else:
+            res = box["res"]
         post = absfn.abstract(self.root, self.inst)
         locks = {n: list(v) for n, v in vars(store).items()
                  if isinstance(v, list) and "locked" in n}
@@ -203,7 +220,7 @@ class Enumerator:
                "errno": _errno.errorcode.get(err, str(err)),
                "site": [fired[0][0], [list(x) for x in fired[0][1]]] if fired else None,
                "res": res, "post": post, "locksLeft": left, "locks": locks, "others": []}
-        blocked = left > 0
+        blocked = left > 0 or hung
         retry = {"cls": "-", "cid": "-", "data": "-", "truth": True}
         if not blocked and res["cls"] != "ok" and self.call["op"] in ("store", "tag"):
             box = {}
@@ -243,6 +260,8 @@ def _enumerate(args):
                     continue
                 for mode in ("once", "persistent"):
                     for e in errnos:
+                        if en.hangs >= 3:
+                            continue          # three hung calls are evidence enough
                         faults.append(en.fault(n, mode, e))
         return {"start": start, "call": call, "ops": len(log),
                 "fault_sites": sum(1 for x in log if x[1] in FAULT_OPS),
